@@ -47,6 +47,18 @@ def check_history(ck, drv, W, R, tag, fails, mism, extra=None):
         if os.environ.get("VERIF_KEEPLOG"):
             import shutil; shutil.copy(W.log, os.environ["VERIF_KEEPLOG"])
         k = T.events[rej][1]
+        # a concrete reading of one kind of rejected event: the completion mark that follows a K/D report is written on another
+        # recipient's record than the one the report was for (the reported recipient stays to do and is attempted again, the marked one
+        # is never attempted)
+        w = T.events[rej][0].split(" ")
+        if w[0] == "mark" and len(w) == 4:
+            evs = [e[0].split(" ") for e in T.events[:rej]]
+            reps = [x for x in evs if x[0] == "rep" and x[1] == w[2]]
+            if reps:
+                cmds = [x for x in evs if x[0] == "cmd" and x[1] == w[2] and x[2] == reps[-1][2]]
+                if cmds and cmds[-1][3] == w[1] and cmds[-1][4] != w[3] and reps[-1][3] in ("K", "D"):
+                    fails.append(("send:completion-mark-on-wrong-recipient", dict(obj, reported_recipient_index=int(cmds[-1][4]), marked_recipient_index=int(w[3]), message=w[1], channel=w[2],
+                                  around=[e[2] for e in T.events[max(0, rej - 8):rej + 1]]), len(R.history)))
         mism.append(dict(stream="event not allowed by QueueSpec", input=dict(obj, event=T.events[rej][2], around=[e[2] for e in T.events[max(0, rej - 8):rej + 1]], log=lines[max(0, k - 4):k + 2]), real="accepted by the code", model="rejected; automaton state of that message: " + inv))
     elif "doc=1 nodrop=1 conc=1" not in inv:
         mism.append(dict(stream="invariant false on an accepted trace", input=obj, real=inv, model="proved true"))
